@@ -278,12 +278,18 @@ func c20Scenario(r *R) {
 	b.WriteString("  - name: order\n    tag: order\n    call: target.TargetService.Order\n    metadata:\n      marker: 'o-{{.request.auth.postprocessor.token}}'\n")
 	b.WriteString("    payload: '{\"token\": \"{{.request.auth.postprocessor.token}}\", \"user_id\": {{.request.auth.postprocessor.userId}}, \"item_id\": {{.request.order.preprocessor.item}}}'\n    preprocessors:\n      - type: prepare\n        mapping:\n          item: request.list.postprocessor.result[0].itemId\n")
 	norder := 1 + w.Draw(3)
-	fmt.Fprintf(&b, "scenarios:\n  - name: sc\n    min_waiting_time: 0\n    requests:\n      - auth(1)\n      - list(1)\n      - order(%d)\n", norder)
+	// pauses between the calls: the scenario as a whole may take longer than the timeout of one call
+	pause := []int{0, 0, 300, 700}[w.Draw(4)]
+	if pause > 0 {
+		fmt.Fprintf(&b, "scenarios:\n  - name: sc\n    min_waiting_time: 0\n    requests:\n      - auth(1, %d)\n      - list(1)\n      - sleep(%d)\n      - order(%d, %d)\n", pause, pause, norder, pause)
+	} else {
+		fmt.Fprintf(&b, "scenarios:\n  - name: sc\n    min_waiting_time: 0\n    requests:\n      - auth(1)\n      - list(1)\n      - order(%d)\n", norder)
+	}
 	invocations := 1 + w.Draw(6)
 	inst := 1 + w.Draw(4)
 	lat := []time.Duration{100 * time.Microsecond, 3 * time.Millisecond}[w.Draw(2)]
 	target := "10.0.0.21:9090"
-	r.Sample(map[string]any{"mode": "grpc/scenario", "rows": rows, "orders": norder, "invocations": invocations, "instances": inst, "latency": lat.String()})
+	r.Sample(map[string]any{"mode": "grpc/scenario", "rows": rows, "orders": norder, "pause_ms": pause, "invocations": invocations, "instances": inst, "latency": lat.String()})
 	if inst >= 2 {
 		r.NonTrivial()
 	}
@@ -346,6 +352,10 @@ func c20Scenario(r *R) {
 		}
 		if c.Deadline < 0 || c.Deadline > 2*time.Second {
 			r.Fail("deadline", "call %s arrived with %v left until its deadline; the configured timeout is 2s", c.Method, c.Deadline)
+		} else if c.Deadline < time.Second {
+			// every call has the configured timeout of its own: with 3 ms of latency at most, a call cannot arrive with
+			// less than half of it left
+			r.Fail("deadline/shortened", "call %s (#%d of the run) arrived with only %v left until its deadline; every call has a timeout of 2s of its own (pauses of %dms between the calls)", c.Method, c.N, c.Deadline, pause)
 		}
 	}
 	// [next] rows consecutive across instances
